@@ -9,7 +9,7 @@ def generator_family(tier='quick'):
     out = []
     keep = ('combined', 'match_two', 'match_u8_None', 'match_strkey', 'objs_named', 'objs_None_None', 'inline_None_None', 'idents', 'meta_None', 'meta_pad_alias',
             'fixed_attr', 'zchar', 'fixed_opt', 'fixedlist_None_None', 'len_u16_inline_true_match', 'len_gap_u16_None', 'cks_u32_inline_true', 'disp_u8_None',
-            'disp_nonroot', 'match_nonroot', 'strlist_true_u8_u32', 'scal_true', 'nest3')
+            'disp_nonroot', 'match_nonroot', 'strlist_true_u8_u32', 'scal_true', 'nest3', 'disp_hi_u32', 'disp_hi_u64', 'disp_keyruns', 'disp_strspecial', 'docs_special', 'objs_empty')
     for p in afamily(tier):
         if p.name.startswith(keep) or tier == 'thorough':
             out.append(T('a:' + p.name, p.render()))
@@ -27,6 +27,8 @@ def generator_family(tier='quick'):
     out.append(T('g:acronym_names', 'options {\n    GoPackage = "msg";\n    GoModule = "example.com/msg";\n    JavaPackage = "com.x";\n}\n\nroot packet Frame {\n    u16 MsgType,\n    match MsgType as Body {\n        1 : NewOrderACK,\n        2 : Logout,\n    },\n}\n\n'
                  'packet NewOrderACK {\n    u32 OrderId,\n    repeat QuoteACK,\n    SBEHeader,\n}\n\npacket QuoteACK {\n    u64 Price,\n}\n\npacket SBEHeader {\n    u16 BlockLen,\n}\n\npacket Logout {\n    u32 UserId,\n}\n'))
     H = 'options {\n    GoPackage = "msg";\n    GoModule = "example.com/msg";\n    JavaPackage = "com.x";\n}\n\n'
+    out.append(T('g:oneline_match', H + 'root packet Frame { u8 kind, match kind as body { 1: Logon, 2: Logout, [3, 4]: Ack, 5: Quote, 9: Ack, }, u8 tail, }\npacket Logon { u8 a, } packet Logout { u8 b, }\npacket Ack { u8 c, } packet Quote { u8 d, }\n'))
+    out.append(T('g:same_field_names', H + 'root packet Frame {\n    u8 k,\n    match k as body {\n        1 : OrderA,\n        2 : OrderB,\n        3 : OrderC,\n    },\n}\n\npacket OrderA {\n    Leg leg,\n    u8 x,\n}\n\npacket OrderB {\n    Leg leg,\n    Leg other,\n}\n\npacket OrderC {\n    repeat Leg leg,\n}\n\npacket Leg {\n    u16 q,\n}\n'))
     out.append(T('g:lowercase_packets', H + 'root packet Frame {\n    u8 k,\n    match k as body {\n        1 : heartbeat,\n        2 : Logon,\n        3 : _private,\n    },\n}\n\npacket heartbeat {\n    u32 seq,\n}\n\npacket Logon {\n    string user,\n}\n\npacket _private {\n    u8 x,\n}\n'))
     out.append(T('g:rootless_single', H + 'packet Ping {\n    u32 Seq,\n    string Note,\n}\n', wellformed=False))
     out.append(T('g:reserved_field_names', H + 'root packet Frame {\n    u16 Kind,\n    char[8] Encode,\n    u32 Decode,\n    string String,\n    u8 Size,\n    repeat u16 Len,\n    Inner Type,\n}\n\npacket Inner {\n    u8 encode,\n    u8 Equals,\n    u8 Buf,\n}\n'))
